@@ -125,7 +125,9 @@ fn run_one(sim: Sim, prop: &str, index: usize, seed: u64, replay: Option<&[u64]>
     };
     let mut ctx = Ctx::new(prop, trace);
     ctx.hash.feed_u64(seed);
+    lockstep::set_perturb(mix(&[seed, 0x10c5]) | 1);
     sim.run(&mut ch, &mut ctx);
+    lockstep::set_perturb(0);
     reed_solomon_simd::verif::set_poison(0);
     reed_solomon_simd::verif::set_cpu_mask(u32::MAX);
     let _ = lockstep::take_log();
@@ -603,7 +605,7 @@ fn cmd_check(args: &Args) -> i32 {
                 out.stats
                     .tuples
                     .iter()
-                    .map(|t| J::s(format!("{}:log2size={},truncated_class={},skew_class={},blocks={}", ["fft", "ifft", "mul", "eval_poly"][t.0 as usize], t.1, t.2, t.3, t.4)))
+                    .map(|t| J::s(format!("{}:log2size={},truncated_class={},skew_class={},blocks={}", ["fft", "ifft", "mul", "eval_poly", "fft(perturbed shadow call)", "ifft(perturbed shadow call)"][t.0 as usize], t.1, t.2, t.3, t.4)))
                     .collect(),
             ),
         );
